@@ -214,6 +214,13 @@ fn run_program(seed: u64, hid: u64, maxops: usize) {
         if let Op::IntoBumpStr = op {
             let old = std::mem::replace(&mut b, BString::new_in(&bump));
             let r: &str = old.into_bump_str();
+            let first = r.as_bytes().to_vec();
+            // the str belongs to the arena from now on: whatever is allocated next must not land on it
+            let churn: Vec<&mut [u8]> = (0..6).map(|i| bump.alloc_slice_fill_copy(1 + 24 * i, 0xC3u8)).collect();
+            let t2 = BString::from_str_in("SECOND STRING", &bump);
+            if r.as_bytes() != &first[..] || churn.iter().any(|b| b.iter().any(|x| *x != 0xC3)) || t2.as_str() != "SECOND STRING" {
+                line!("X into_bump_str_changed_by_later_allocations");
+            }
             line!("T {} | str:{} | - | 1", op.show(), hex(r.as_bytes()));
             line!("S {} | str:{} | - | 1", op.show(), hex(s.as_bytes()));
             s.clear();
